@@ -228,9 +228,11 @@ def write_replay(prop, entry, minimised, spent, tier):
         "how_to_replay": "./check {} --replay <this file>".format(prop),
     }
     os.makedirs(os.path.join(ROOT, 'replays'), exist_ok=True)
-    name = "{}-{}-{}-{}.json".format(prop, entry["seed"],
-                                     slug(viol_d["clause"]),
-                                     slug(viol_d["site"]))
+    # the pid keeps concurrent runs of the same check (e.g. against different
+    # VERIF_REPO trees) from overwriting each other's replay files
+    name = "{}-{}-{}-{}-p{}.json".format(prop, entry["seed"],
+                                         slug(viol_d["clause"]),
+                                         slug(viol_d["site"]), os.getpid())
     path = os.path.join(ROOT, 'replays', name)
     with open(path, 'w') as out:
         json.dump(doc, out, indent=1)
